@@ -28,6 +28,8 @@ FILLERS = {
     "wsMtext": "<mtext> &#xA0;</mtext>", "none": "<none/>", "mspace": "<mspace width='1em'/>",
     "mphantom": "<mphantom><mi>h</mi></mphantom>", "emptyMstyle": "<mstyle/>", "nestedEmptyMrow": "<mrow><mrow/></mrow>",
     "emptyMrowIntent": "<mrow intent='blank'/>",
+    "allPhantomMrow": "<mrow><mphantom><mi>a</mi></mphantom><mphantom><mi>b</mi></mphantom></mrow>",
+    "malignRow": "<mrow><malignmark/><maligngroup/></mrow>",
 }
 
 
@@ -44,7 +46,7 @@ class Concretiser:
             return f"<mi>{t}</mi>"
         if cls == "num":
             if self.spicy and r.random() < 0.4:
-                t = r.choice(["1,234", "3.14", "0,5", "1 000", "-7", "−2", "12", "1.", ".5", "1,2,3", "2·3", "0x1F"])
+                t = r.choice(["1,234", "3.14", "0,5", "1 000", "-7", "−2", "12", "1.", ".5", "1,2,3", "2·3", "0x1F", "-", "−", "+", "- ", "−.", "%"])
             else:
                 t = str(r.randrange(12, 9800))
             return f"<mn>{t}</mn>"
@@ -73,7 +75,8 @@ class Concretiser:
         if tag == "menclose":
             return f"<menclose notation='{r.choice(['box', 'top', 'updiagonalstrike', 'longdiv']) if self.spicy else 'box'}'>{k[0]}</menclose>"
         if tag == "semantics":
-            return f"<semantics>{k[0]}<annotation encoding='application/x-tex'>\\alpha &lt; b</annotation></semantics>"
+            enc = r.choice(["application/x-tex", "application/x-tex; charset=utf8", "TeX", "text/plain;x=1", "a b", "x:y", "α/β", "1tex", ""]) if self.spicy else "application/x-tex"
+            return f"<semantics>{k[0]}<annotation encoding='{enc}'>\\alpha &lt; b</annotation></semantics>"
         if tag == "mstyle":
             a = " mathvariant='bold'" if self.spicy and r.random() < 0.3 else ""
             return f"<mstyle{a}>{''.join(k)}</mstyle>"
@@ -203,6 +206,14 @@ def build_cases(tier, wd):
         combos = [(f, l, h) for f in followers for l in leaders for h in hosts]
         for f, l, h in r3.sample(combos, 24 if tier == "thorough" and ri < len(mergeable) ** 2 else 3):
             cases.append({"mathml": h.format(l + "".join(run) + f), "origin": "sibling-merge-row", "idmode": "none", "spicy": True, "locale": None})
+    # adjacent wrappers with equal attributes as the positional children of fixed-arity elements (merging them changes the arity)
+    for wrap in ("mstyle mathvariant='bold'", "mstyle", "mpadded width='1em'", "mstyle mathcolor='red'"):
+        w = lambda x: f"<{wrap}>{x}</{wrap.split()[0]}>"
+        a, b, c = w("<mi>a</mi>"), w("<mi>b</mi>"), w("<mn>3</mn>")
+        for body in (f"<mmultiscripts><mi>x</mi>{a}{b}</mmultiscripts>", f"<mmultiscripts><mi>x</mi>{a}{b}<mprescripts/>{c}{a}</mmultiscripts>", f"<mfrac>{a}{b}</mfrac>",
+                     f"<msubsup>{a}{b}{c}</msubsup>", f"<munderover><mo>∑</mo>{a}{b}</munderover>", f"<mroot>{a}{b}</mroot>", f"<msub><mi>x</mi>{a}</msub>{b}",
+                     f"<mtable><mtr><mtd>{a}</mtd><mtd>{b}</mtd></mtr></mtable>", f"<msqrt>{a}{b}</msqrt>"):
+            cases.append({"mathml": f"<math>{body}</math>", "origin": "adjacent-wrappers", "idmode": "none", "spicy": True, "locale": None})
     # tokens that canonicalization SPLITS into several elements (points under an arc / bar / arrow or after a shape, chemical
     # formulas, function name glued to its argument, digits glued to letters, 'dx'): new elements come out of one token, so what
     # happens to the author's id and attributes on that token matters - every id mode, tokens as mi and mtext
